@@ -66,6 +66,15 @@ def sq_dists(points, scale):
 
 def model_rdm(case):
     """(library model, theta, predicted RDM vector from explicit loops)"""
+    out = _model_rdm(case)
+    if float(np.max(np.abs(out[2]))) < 1e-10:
+        # all points coincide up to rounding (e.g. a centroid of equal points): a vanishing model
+        # RDM is outside the domain (the library works with absolute 1e-15 thresholds, DESIGN 1.4)
+        raise Reject('model RDM vanishes up to rounding', 'degenerate:zero-model-rdm')
+    return out
+
+
+def _model_rdm(case):
     m = case['model']
     d0 = sq_dists(m['points'], m['scale'])
     if m['kind'] == 'fixed':
